@@ -29,6 +29,9 @@ field menus x align_corners x dtype x batch size x argument forms. Sub-checks:
                        error <= 0.5 A, given field not overwritten, call repeatable
     input-unchanged    every anchor function (expv option lattice, compose_flows, compose_svfs, lie_bracket, logv option
                        lattice): the field arguments are bit-identical and unwritten (_version) after the call
+    layout             either / both field arguments of compose_flows, compose_svfs, lie_bracket, logv and an (N,D) spacing
+                       tensor given as transposed view, step-sliced view, stride-0 expanded batch: no exception,
+                       result equal to the contiguous form, arguments (and the buffer a view lives in) unchanged
     logv-roundtrip     |logv(expv(v)) - v| <= 0.5 A samples, err(A) <= 8 err(A/2) + 1e-4, and the errors under the
                        two conventions stay within a factor 1.5 (+1e-4) of each other
 """
@@ -50,7 +53,8 @@ RULE = (
     "spacing argument (None, scalar, (D,), (1,D), (N,1), (N,D) tensor and nested list with different rows) x N in {1,2,3} "
     "for lie_bracket / compose_svfs; the option lattice exp_steps {0,1,default} x num_iters {1,2,3} x sigma {None,1} x "
     "bch_terms {0,1} of logv and steps {0,1,default} x scale {None,1,0.5,-1} x inverse of expv, each call also judged for "
-    "leaving the given fields bit-identical; ordered call sequences (hidden state); distinct = "
+    "leaving the given fields bit-identical; ordered call sequences (hidden state); memory layouts (transposed view, "
+    "step-sliced view, stride-0 batch) of either / both field arguments and of an (N,D) spacing tensor on a reduced menu; distinct = "
     "hash of the returned tensor; non-trivial = the result differs from the trivial answer (u+v for compositions, 0 "
     "for brackets) by more than 1e-3 of its magnitude, or for round trips the displacement exceeds half the amplitude"
 )
@@ -82,7 +86,7 @@ MIN_SUB_TRACES = {
     "compose-affine": 1000, "compose-identity": 200, "compose-flag": 100, "bracket-antisym": 100,
     "bracket-bilinear": 500, "bch-commuting": 500, "bch-affine-series": 500, "bch-affine-error": 50,
     "bch-smooth-error": 20, "logv-roundtrip": 100, "call-sequence": 150, "compose-translation": 500,
-    "spacing-forms": 300, "input-unchanged": 400, "logv-options": 200,
+    "spacing-forms": 300, "input-unchanged": 400, "logv-options": 200, "layout": 120,
 }
 
 C = 64.0
@@ -189,6 +193,9 @@ def bounds(tier):
         "spacing_shapes": [list(s) for s in SPACING_SHAPES],
         "logv_options": {"exp_steps": [0, 1, None], "num_iters": [1, 2, 3], "sigma": [None, 1.0], "bch_terms": [0, 1], "amplitudes": [0.1, 0.5]},
         "anchor_calls_fingerprinted": len(anchor_calls(2)),
+        "layout_forms": LAYOUT_FORMS,
+        "layout_functions": [f[0] for f in layout_functions()],
+        "layout_targets": ["first", "second", "both", "spacing"],
     }
 
 
@@ -1286,6 +1293,114 @@ def case_logv_options(case) -> Result:
     return r
 
 
+
+# ---------------------------------------------------------------------------
+# memory layout of the user-supplied fields and tensor-valued spacing
+LAYOUT_FORMS = ["transposed", "sliced", "expanded"]
+LAYOUT_SHAPES = [(5, 7), (3, 4, 5)]
+
+
+def layout_functions():
+    """(name, depth of nested brackets, fn(u, v, spacing) -> tensor). spacing None or an (N, D) tensor."""
+    from deepali.core.flow import compose_flows, compose_svfs, lie_bracket, logv
+
+    return [
+        ("compose_flows[ac=T]", 0, lambda u, v, sp: compose_flows(u, v, align_corners=True)),
+        ("compose_flows[ac=F]", 0, lambda u, v, sp: compose_flows(u, v, align_corners=False)),
+        ("compose_svfs[terms=3]", 2, lambda u, v, sp: compose_svfs(u, v, bch_terms=3, spacing=sp)),
+        ("compose_svfs[terms=5,sigma=1]", 3, lambda u, v, sp: compose_svfs(u, v, bch_terms=5, sigma=1.0, spacing=sp)),
+        ("lie_bracket", 1, lambda u, v, sp: lie_bracket(v, u, spacing=sp)),
+        ("logv[exp_steps=0]", 4, lambda u, v, sp: logv(u, num_iters=2, bch_terms=1, sigma=None, exp_steps=0, spacing=sp)),
+        ("logv[default]", 4, lambda u, v, sp: logv(u, num_iters=2, spacing=sp)),
+    ]
+
+
+def _fp_base(t: torch.Tensor):
+    base = t._base if t._base is not None else t
+    return fingerprint(t) + (base.detach().clone(),)
+
+
+def _fp_base_changed(t: torch.Tensor, fp) -> str:
+    c = changed(t, fp[:5])
+    if c:
+        return c
+    base = t._base if t._base is not None else t
+    return "" if torch.equal(base.detach(), fp[5]) else "the buffer the view lives in changed"
+
+
+def case_layout(case) -> Result:
+    """Same values, other memory layout of the field arguments / the spacing tensor: no exception, result equal to
+    the contiguous form, arguments unchanged."""
+    from ref.layout import applicable, relayout
+
+    r = Result()
+    shape, dtype = tuple(case["shape"]), case["dtype"]
+    D = len(shape)
+    name, depth, fn = layout_functions()[case["fn"]]
+    form, target = case["layout"], case["target"]
+    tail = f"fn={name}/arg={target}/{dtype}/layout={form}"
+    amp = 0.6 / max(shape)
+    N = 2
+    fields = [fa.generic_field(shape, True, case["seed"] + i, amp * (1.0 - 0.2 * i)) for i in range(4)]
+    H = np.array([H_ROWS[i][:D] for i in range(N)])
+
+    def variant(arr_items, is_spacing=False):
+        """(contiguous reference, non-contiguous argument) with equal values."""
+        if form == "expanded":
+            base = torch.tensor(arr_items[0], dtype=torch.float32 if is_spacing else DT[dtype])
+            return relayout(base, "repeat", N), relayout(base, "expanded", N)
+        ref = torch.tensor(np.stack(arr_items), dtype=torch.float32 if is_spacing else DT[dtype])
+        if not applicable(ref, form):
+            return ref, None
+        return ref, relayout(ref, form)
+
+    u_ref, u_alt = variant(fields[0:2])
+    v_ref, v_alt = variant(fields[2:4])
+    sp_ref = sp_alt = None
+    if target == "spacing":
+        sp_ref, sp_alt = variant([H[0], H[1]], is_spacing=True)
+    alts = {"first": (u_alt, v_ref, None), "second": (u_ref, v_alt, None), "both": (u_alt, v_alt, None), "spacing": (u_ref, v_ref, sp_alt)}[target]
+    if any(a is None for a in (alts[0], alts[1])) or (target == "spacing" and sp_alt is None):
+        r.undef.append("layout-not-applicable")
+        return r
+    changed_args = [a for a in alts if a is not None and not a.is_contiguous()]
+    if not changed_args:
+        raise AssertionError("harness: no non-contiguous argument built")
+    st, ref = guarded(fn, u_ref.clone(), v_ref.clone(), None if sp_ref is None else sp_ref.clone())
+    r.trans += 1
+    if st == "raises":
+        r.undef.append("contiguous-form-raises (judged by the other sub-checks)")
+        return r
+    fps = [(a, _fp_base(a)) for a in alts if a is not None]
+    st, out = guarded(fn, alts[0], alts[1], alts[2])
+    r.trans += 1
+    r.judged += 1
+    if st == "raises":
+        r.bad(f"C13/layout/{tail}/raises={type(out).__name__}", exc_text(out))
+        return r
+    if not isinstance(out, torch.Tensor) or out.shape != ref.shape:
+        r.bad(f"C13/layout/{tail}/shape", f"{type(out).__name__} {getattr(out, 'shape', None)} vs {tuple(ref.shape)}")
+        return r
+    r.outcomes.append(h64(_np(out)))
+    r.nontriv.append(h64("layout", case["shape"], dtype, name, target, form))
+    if not torch.equal(out, ref):
+        m = max(float(u_ref.abs().max()), float(v_ref.abs().max()), float(ref.abs().max()))
+        hmin = float(H.min()) if target == "spacing" else None
+        g = gain(shape, D, hmin)
+        tol = C * EPS[dtype] * m * (1.0 + g * m) ** depth * (1 + max(shape))
+        d = float((out.double() - ref.double()).abs().max())
+        if not np.isfinite(d) or d > tol:
+            r.bad(f"C13/layout/{tail}/value", f"result differs from the contiguous form by {d:.3e} > tol {tol:.2e} (shape {shape}, strides {[tuple(a.stride()) for a in changed_args]})")
+        else:
+            r.undef.append("layout-result-equal-within-rounding-not-bitwise")
+    for a, fp in fps:
+        c = _fp_base_changed(a, fp)
+        if c:
+            r.bad(f"C13/layout/{tail}/operand-mutated", f"{c} (shape {shape})")
+            break
+    return r
+
+
 KINDS = {
     "compose-affine": case_compose_affine,
     "compose-identity": case_compose_identity,
@@ -1302,6 +1417,7 @@ KINDS = {
     "spacing-forms": case_spacing_forms,
     "input-unchanged": case_input_unchanged,
     "logv-options": case_logv_options,
+    "layout": case_layout,
 }
 
 AMPS = [0.1, 0.25, 0.5]
@@ -1324,6 +1440,18 @@ def cases_of(shard):
             for uspec in TRANSL_U:
                 for vi in range(len(TRANSL_V)):
                     yield {**base, "N": N, "u": uspec, "v": vi}
+    elif kind == "layout":
+        fns = layout_functions()
+        for fi, (name, _, _) in enumerate(fns):
+            for target in ("first", "second", "both", "spacing"):
+                if target == "spacing" and name.startswith("compose_flows"):
+                    continue
+                if target == "second" and name.startswith("logv"):
+                    continue  # logv has one field argument
+                if target == "both" and name.startswith("logv"):
+                    continue
+                for form in LAYOUT_FORMS:
+                    yield {**base, "fn": fi, "target": target, "layout": form}
     elif kind == "spacing-forms":
         for N in (1, 2, 3):
             for form in SPACING_FORMS:
@@ -1411,6 +1539,9 @@ def shards(tier: str, seed: int):
             out.append({"tier": tier, "seed": seed, "kind": "spacing-forms", "shape": list(shape), "dtype": dtype})
             for ac in (True, False):
                 out.append({"tier": tier, "seed": seed, "kind": "input-unchanged", "shape": list(shape), "ac": ac, "dtype": dtype})
+    for shape in LAYOUT_SHAPES:
+        for dtype in ("f32", "f64"):
+            out.append({"tier": tier, "seed": seed, "kind": "layout", "shape": list(shape), "dtype": dtype})
     for shape in smooth_shapes(tier):
         for ac in (True, False):
             for dtype in ("f32",) if tier == "quick" else ("f32", "f64"):
